@@ -169,25 +169,42 @@ def trace (md : Mode) : St → List Ev → List (Ev × List Obs × St)
     let p := exec md s e
     (e, p.2, p.1) :: trace md p.1 r
 
-/-! ## Programs: the order of the stores as in the C++ text -/
+/-! ## Programs: the order of the stores as in the C++ text
+
+The order of the stores inside the constructor and inside `SetHandler` is a parameter (`Layout`): the pinned
+commit has `Layout.pinned`; the two proposed repairs (repo_patches/C15-fix-*.diff) are the other values.  The
+check reads the layout off the real code (order of the hook call-outs) on every run and uses the matching one. -/
+
+structure Layout where
+  /-- constructor: `stop_ = 0` *before* the two `signal()` calls (repair) instead of after them (pinned) -/
+  ctorStopFirst : Bool
+  /-- SetHandler: `handler_ = 0; data_ = d; handler_ = h` (repair) instead of `handler_ = h; data_ = d` (pinned) -/
+  regClearFirst : Bool
+  deriving DecidableEq, Repr
+
+def Layout.pinned : Layout := ⟨false, false⟩
+def Layout.fixed : Layout := ⟨true, true⟩
 
 inductive Macro
   | ctor | reg (h d : Nat) | work | dtor
   deriving DecidableEq, Repr
 
-def ctorSteps : List Micro := [.cAlloc, .cIntr, .cPtr, .cSize, .cSigInt, .cSigTerm, .cStop0]
-def regSteps (h d : Nat) : List Micro := [.setH h, .setD d]
+def ctorSteps (L : Layout) : List Micro :=
+  if L.ctorStopFirst then [.cAlloc, .cIntr, .cPtr, .cSize, .cStop0, .cSigInt, .cSigTerm]
+  else [.cAlloc, .cIntr, .cPtr, .cSize, .cSigInt, .cSigTerm, .cStop0]
+def regSteps (L : Layout) (h d : Nat) : List Micro :=
+  if L.regClearFirst then [.setH 0, .setD d, .setH h] else [.setH h, .setD d]
 def dtorSteps : List Micro := [.dIntr, .dStop1, .dH0, .dSize0, .dFree]
 
-def expand : Macro → List Micro
-  | .ctor => ctorSteps
-  | .reg h d => regSteps h d
+def expand (L : Layout) : Macro → List Micro
+  | .ctor => ctorSteps L
+  | .reg h d => regSteps L h d
   | .work => [.work]
   | .dtor => dtorSteps
 
-def expandProg : List Macro → List Micro
+def expandProg (L : Layout) : List Macro → List Micro
   | [] => []
-  | m :: r => expand m ++ expandProg r
+  | m :: r => expand L m ++ expandProg L r
 
 /-- the program steps of an event sequence -/
 def steps : List Ev → List Micro
@@ -215,30 +232,41 @@ def validSched (n : Nat) : List (Nat × Sig) → Bool
 
 /-! ## Lifecycle automaton: which sequences of program steps a driver can produce
 
-`idle` (no handler object) → constructor steps in order → `live r` (r = the last *completed*
-registration of this object) ⇄ `mid r h` (between the two stores of `SetHandler(h, _)`) →
-destructor steps in order → `idle`.  Work steps are allowed while idle or live. -/
+`idle` (no handler object) → constructor steps in the layout's order → `live r` (r = the last *completed*
+registration of this object) → the stores of `SetHandler` in the layout's order (`mid r h`: pinned layout, between
+`handler_ = h` and `data_ = d`; `clr` / `dat d`: repaired layout, after `handler_ = 0` / after `data_ = d`) →
+`live (h, d)` … → destructor steps in order → `idle`.  Work steps are allowed while idle or live. -/
 
 inductive PC
-  | idle | cA | cI | cP | cZ | cS1 | cS2
+  | idle | cA | cI | cP | cZ
+  | c0                       -- (ctorStopFirst) after `stop_ = 0`, before `signal(SIGINT, …)`
+  | cS1                      -- after `signal(SIGINT, …)`
+  | cS2                      -- (pinned) after `signal(SIGTERM, …)`, before `stop_ = 0`
   | live (r : Option (Nat × Nat))
   | mid (r : Option (Nat × Nat)) (h : Nat)
+  | clr
+  | dat (d : Nat)
   | dI (r : Option (Nat × Nat))
   | dS (r : Option (Nat × Nat))
   | dH | dZ
   deriving DecidableEq, Repr
 
-def pcNext : PC → Micro → Option PC
+def pcNext (L : Layout) : PC → Micro → Option PC
   | .idle, .cAlloc => some .cA
   | .idle, .work => some .idle
   | .cA, .cIntr => some .cI
   | .cI, .cPtr => some .cP
   | .cP, .cSize => some .cZ
-  | .cZ, .cSigInt => some .cS1
-  | .cS1, .cSigTerm => some .cS2
-  | .cS2, .cStop0 => some (.live none)
-  | .live r, .setH h => some (.mid r h)
-  | .mid _ h, .setD d => some (.live (some (h, d)))
+  | .cZ, .cSigInt => if L.ctorStopFirst then none else some .cS1
+  | .cZ, .cStop0 => if L.ctorStopFirst then some .c0 else none
+  | .c0, .cSigInt => if L.ctorStopFirst then some .cS1 else none
+  | .cS1, .cSigTerm => if L.ctorStopFirst then some (.live none) else some .cS2
+  | .cS2, .cStop0 => if L.ctorStopFirst then none else some (.live none)
+  | .live r, .setH h =>
+    if L.regClearFirst then (if h = 0 then some .clr else none) else some (.mid r h)
+  | .mid _ h, .setD d => if L.regClearFirst then none else some (.live (some (h, d)))
+  | .clr, .setD d => if L.regClearFirst then some (.dat d) else none
+  | .dat d, .setH h => if L.regClearFirst then some (.live (some (h, d))) else none
   | .live r, .work => some (.live r)
   | .live r, .dIntr => some (.dI r)
   | .dI r, .dStop1 => some (.dS r)
@@ -247,23 +275,23 @@ def pcNext : PC → Micro → Option PC
   | .dZ, .dFree => some .idle
   | _, _ => none
 
-def pcRun : PC → List Ev → Option PC
+def pcRun (L : Layout) : PC → List Ev → Option PC
   | pc, [] => some pc
-  | pc, .sig _ :: r => pcRun pc r
+  | pc, .sig _ :: r => pcRun L pc r
   | pc, .step m :: r =>
-    match pcNext pc m with
+    match pcNext L pc m with
     | none => none
-    | some pc' => pcRun pc' r
+    | some pc' => pcRun L pc' r
 
-def pcRunSteps : PC → List Micro → Option PC
+def pcRunSteps (L : Layout) : PC → List Micro → Option PC
   | pc, [] => some pc
   | pc, m :: r =>
-    match pcNext pc m with
+    match pcNext L pc m with
     | none => none
-    | some pc' => pcRunSteps pc' r
+    | some pc' => pcRunSteps L pc' r
 
 /-- well-formed macro program (what the harness and the driver accept) -/
-def wfProg (p : List Macro) : Bool := (pcRunSteps .idle (expandProg p)).isSome
+def wfProg (L : Layout) (p : List Macro) : Bool := (pcRunSteps L .idle (expandProg L p)).isSome
 
 /-! ## Vocabulary of the property statements -/
 
@@ -280,7 +308,32 @@ def Body : Ev → Bool
 def PC.installed : PC → Bool
   | .live _ => true
   | .mid _ _ => true
+  | .clr => true
+  | .dat _ => true
   | _ => false
+
+/-- "installed", strict reading, for SIGINT: this object's `signal(SIGINT, …)` call has been made and its
+    destructor has not begun -/
+def PC.installedInt : PC → Bool
+  | .cS1 => true
+  | .cS2 => true
+  | pc => pc.installed
+
+/-- the same for SIGTERM -/
+def PC.installedTerm : PC → Bool
+  | .cS2 => true
+  | pc => pc.installed
+
+def PC.installedFor (pc : PC) : Sig → Bool
+  | .int => pc.installedInt
+  | .term => pc.installedTerm
+
+/-- events between a `signal()` call of the constructor and the destructor, *other than a store to `stop_`*:
+    body events and the constructor's `signal()` calls -/
+def BodyOrSignalCall : Ev → Bool
+  | .step .cSigInt => true
+  | .step .cSigTerm => true
+  | e => Body e
 
 /-- between the two stores of `SetHandler` -/
 def PC.inWindow : PC → Bool
@@ -295,10 +348,19 @@ def PC.curReg : PC → Option (Nat × Nat)
   | .dS r => r
   | _ => none
 
+/-- a step of the destructor -/
+def isDtorStep : Ev → Bool
+  | .step .dIntr => true
+  | .step .dStop1 => true
+  | .step .dH0 => true
+  | .step .dSize0 => true
+  | .step .dFree => true
+  | _ => false
+
 /-- no handler object exists (never constructed, or destructor body done past `handler_ = 0`), or it is still
     being constructed -/
 def PC.noCallbackExpected : PC → Bool
-  | .idle | .cA | .cI | .cP | .cZ | .cS1 | .cS2 | .dH | .dZ => true
+  | .idle | .cA | .cI | .cP | .cZ | .c0 | .cS1 | .cS2 | .clr | .dat _ | .dH | .dZ => true
   | _ => false
 
 end MpVerif.C15
